@@ -265,6 +265,7 @@ func C08(c *vlib.Ctx) {
 	c.Assume("completeness is not claimed, but a run in which no valid request is accepted is inconclusive; exactly at |now-ts| = tolerance either answer is accepted")
 	dir := c.Scratch()
 	c08BlankSecretSources(c, dir)
+	c08RotatedSecretReload(c, dir)
 	mock := newFwdMock()
 	defer mock.srv.Close()
 	nCfg := c.N(60, 2500)
